@@ -400,6 +400,48 @@ def qubit_kind_specs(rng, names=None):
     return out
 
 
+# pairs / triples of DIFFERENT angles that agree in their first six significant digits, or are large: the importer
+# caches the unitary of a user gate under the text of the call, so a re-imported circuit is only right if different
+# angles give different keys
+NEAR_ANGLES = [(0.7853981, 0.7853984), (1.0000001, 1.0000004), (-2.5000002, -2.5000009), (1000000.25, 1000003.0),
+               (1e6 + 0.5, 1e6 + 1.0), (123456.7, 123456.9), (1e-7, 1.0000003e-7), (3.141592653589793, 3.1415927),
+               (0.5, 0.50000004, 0.5000001), (1e9 + 1.0, 1e9 + 3.0, 1e9 + 2.0)]
+
+
+def repeated_param_specs(rng):
+    """the SAME parametrised gate used several times in one circuit with nearly equal / large angles — above all the
+    gates exported through an auxiliary definition (`gate crx(theta) a,b {…}`, `cry`): re-imported they are user gates
+    whose expansion the reader caches by the call's text"""
+    out = []
+    names = [n for n in library_names() if exportable(n) and shape_of(n)[2] == "s"]
+    defined = set()
+    try:
+        defined = {k for k, _ in qasm_tables.export_tables()["defns"]}
+    except Exception:
+        pass
+    names.sort(key=lambda n: n not in defined)          # CRX, CRY first
+    for g in names:
+        nc, nt, ps = shape_of(g)
+        for angles in NEAR_ANGLES:
+            for same_qubits in (True, False):
+                ops = []
+                for j, a in enumerate(angles):
+                    qs = list(range(nc + nt)) if (same_qubits or j % 2 == 0) else list(range(nc + nt))[::-1]
+                    op = make_gate(rng, g, 3, {g: (nc, nt, ps)}, qs, {"s": a, "np": False})
+                    op.pop("raw", None)
+                    ops.append(op)
+                out.append({"N": max(2, nc + nt), "c": 0, "ops": ops})
+            # with another gate between the two uses, and the first angle used again at the end
+            a, b = angles[0], angles[1]
+            ops = []
+            for v in (a, b, a):
+                op = make_gate(rng, g, 3, {g: (nc, nt, ps)}, list(range(nc + nt)), {"s": v, "np": False})
+                op.pop("raw", None)
+                ops += [op, {"g": "SNOT", "t": [0], "c": None, "a": None, "k": None}]
+            out.append({"N": max(2, nc + nt), "c": 0, "ops": ops})
+    return out
+
+
 def conditioned_specs(rng, names=None):
     """classically conditioned gates: every exportable gate conditioned on the WHOLE classical register of 1-3 bits with
     EVERY value (and the default value), and on parts / permutations of the register.  The exporter may refuse them;
@@ -794,6 +836,8 @@ class C10(PropertyCheck):
         specs += name_specs(rng)
         # classically conditioned gates (whole register of 1-3 bits x every value, parts, permutations)
         specs += conditioned_specs(rng)
+        # one parametrised gate several times with nearly equal / large angles (cache keys of the re-import)
+        specs += repeated_param_specs(rng)
         # container / integer type of controls and targets (only a tree whose `_qasm_str` normalises them is given
         # anything but lists of Python ints: the model's qubit lists stand for exactly those on other trees)
         if tree_tables()["containers"]:
@@ -820,7 +864,9 @@ class C10(PropertyCheck):
                          "circuit; measurements; every gate name of GATE_CLASS_MAP / add_gate (own class and generic Gate object); "
                          "on a tree with fix C10-5: controls / targets as list, tuple, ndarray, list of numpy integers, bare "
                          "int, bare numpy integer in every combination for every exportable gate; every exportable gate conditioned "
-                         "on the whole classical register of 1-3 bits with every value, and on parts / permutations of it"
+                         "on the whole classical register of 1-3 bits with every value, and on parts / permutations of it; every "
+                         "parametrised exportable gate used 2-3 times in one circuit with angles that agree in six significant "
+                         "digits or are large (1e6+0.5 / 1e6+1.0)"
                          % len(PARAM_TEXTS))
         # random circuits
         n_rand = 15000 if ctx.thorough else 400
@@ -903,6 +949,9 @@ class C10(PropertyCheck):
         for g in NON_EXPORTABLE:
             yield {"N": 3, "c": 0, "ops": [make_gate(rng, g, 3, NONEXP_SHAPE)]}
         tt = tree_tables()
+        rp = repeated_param_specs(rng)
+        for spec in rp[: (len(rp) if (ctx.thorough or full) else 50)]:
+            yield spec
         cs = conditioned_specs(rng)
         rng.shuffle(cs)
         for spec in cs[: (len(cs) if (ctx.thorough or full) else 90)]:
@@ -935,7 +984,7 @@ class C10(PropertyCheck):
         bare = self._bare_exponent_excluded()
         for spec in self._search_stream(ctx):
             n += 1
-            if n > (4000 if ctx.thorough else 520):
+            if n > (4000 if ctx.thorough else 570):
                 return
             if not self._sweep_ok(spec, bare):
                 continue
